@@ -126,7 +126,7 @@ sim::Json make_token(sim::Rng& rng, bool cmdline, bool allow_errors) {
     }
     case 'S': {
       static const char* plain[] = {"abc", "x.y", "a=b", "file_1.txt", "/p/q", "A-B:C"};
-      static const char* spaced[] = {"a b", "x  y z", " lead", "q=r s"};
+      static const char* spaced[] = {"a b", "x  y z", " lead", "q=r s", "C:\\tmp dir\\", "back\\slash\\", "a\\'b c", "\\"};   // backslashes are ordinary characters, also right before the closing quote
       if (cmdline) {                            // the rest of the argv element, verbatim
         std::string v = rng.chance(0.5) ? plain[rng.below(6)] : spaced[rng.below(4)];
         if (v[0] == ' ') v = v.substr(1);
@@ -134,8 +134,9 @@ sim::Json make_token(sim::Rng& rng, bool cmdline, bool allow_errors) {
       } else if (rng.chance(0.5)) {
         std::string v = plain[rng.below(6)]; vtext = v; t.set("val", v);
       } else {
-        std::string v = spaced[rng.below(4)];
+        std::string v = spaced[rng.below(8)];
         char q = rng.chance(0.5) ? '\'' : '"';
+        if (v.find('\'') != std::string::npos) q = '"';
         vtext = std::string(1, q) + v + q; t.set("val", v);
       }
       t.set("sem", "set");
@@ -153,7 +154,7 @@ sim::Json make_token(sim::Rng& rng, bool cmdline, bool allow_errors) {
 sim::Json garbage_token(sim::Rng& rng) {
   sim::Json t = sim::Json::object();
   static const char* g[] = {"tech:stropt='unterminated", "stropt=\"open", "intopt=", "dblopt", "=", "==", "a==b", "intopt=12abc", "dblopt=1e", "tech:intopt = = 3",
-                            "'", "\"", "listopt=1,2", "wc:*:val=3", "wc::val=1", "?", "intopt=?x", "\xff\xfe=\x80", "tech:stropt=\xc3\xa9", "sol:stub='a'b'"};
+                            "'", "\"", "listopt=1,2", "wc:*:val=3", "wc::val=1", "?", "intopt=?x", "\xff\xfe=\x80", "tech:stropt=\xc3\xa9", "sol:stub='a'b'", "tech:stropt='abc\\", "stropt=\"x\\"};
   std::string s = g[rng.below(sizeof g / sizeof *g)];
   if (rng.chance(0.08)) s = "tech:stropt=" + std::string(65536, 'x');
   if (rng.chance(0.08)) s = std::string(70000, 'n') + "=1";
